@@ -70,6 +70,7 @@ static void sfd_scenario(const std::vector<int>& ops, int devnull, const string&
   for (size_t i = 0; i < ops.size() && !bad; i++) {
     int o = ops[i];
     C->crumb_s(kase + fmt(" [at op %zu]", i));
+    vf::poison_errno();
     switch (o) {
       case 0: case 1: {
         int x = o, nf = newfd();
@@ -181,6 +182,7 @@ static void poll_compare(phosg::Poll& P, const std::map<int, short>& model, cons
   bool e = P.empty();
   std::unordered_map<int, short> res;
   try {
+    vf::poison_errno();
     res = P.poll(0);
   } catch (const std::exception& ex) {
     C->violation("poll:poll-throws", ex.what(), kase());
@@ -237,6 +239,7 @@ static void part_poll() {
       std::map<int, short> model;
       bool readd = false;
       for (int o : ops) {
+        vf::poison_errno();
         if (o < 6) {
           readd |= model.count(fds[o / 2]) > 0;
           P.add(fds[o / 2], PMASK[o % 2]);
@@ -280,6 +283,7 @@ static void part_poll() {
         io::CloseScope cs;
         phosg::Poll P;
         for (int o : ops) {
+          vf::poison_errno();
           if (o < 4) {
             readd |= model.count(d2[o / 2]) > 0;
             P.add(d2[o / 2], PMASK[o % 2]);
